@@ -129,6 +129,14 @@ pub enum Op {
     Repeat { times: u32, ops: Vec<Op> },
     /// End the script returning this template (default return: the encoded list of slots)
     Return(Vec<u8>),
+    // ---- appended (vf-eng-c) ----
+    /// Carries nodes INTO a script: every `Own` / `Reference` found in the value (traversal order)
+    /// is pushed as a Node slot. Because the value is part of the invocation payload, owned nodes
+    /// in it are moved into the callee's frame and references become visible there. In the
+    /// caller's `CallMethod`/`CallFunction` args the nodes may be written as `placeholder(slot)`.
+    Import(ScryptoValue),
+    /// Push a raw handle number as a Handle slot (to use a handle number obtained elsewhere).
+    RawHandle(u32),
 }
 
 #[derive(ScryptoSbor, Clone, Debug, PartialEq, Eq)]
@@ -528,6 +536,16 @@ fn run_ops<Y: SystemApi<RuntimeError>>(m: &mut Machine, ops: &[Op], api: &mut Y)
             }
             Op::Return(tpl) => {
                 return Ok(Flow::Return(m.subst(tpl)?));
+            }
+            Op::Import(v) => {
+                let mut nodes = Vec::new();
+                collect_nodes(v, &mut nodes);
+                for n in nodes {
+                    m.slots.push(Slot::Node(Reference(n)));
+                }
+            }
+            Op::RawHandle(h) => {
+                m.slots.push(Slot::Handle(*h));
             }
         }
     }
